@@ -3,6 +3,10 @@
 
 mod c02;
 mod c04;
+mod c06;
+mod c11;
+mod c18;
+mod c19;
 mod te;
 
 fn main() {
@@ -32,6 +36,10 @@ fn main() {
     let code = match prop {
         "C02" => c02::run(&tier, replay.as_deref()),
         "C04" | "C20" => c04::run(prop, &tier, replay.as_deref()),
+        "C06" => c06::run(&tier, replay.as_deref()),
+        "C11" => c11::run(&tier, replay.as_deref()),
+        "C18" => c18::run(&tier, replay.as_deref()),
+        "C19" => c19::run(&tier, replay.as_deref()),
         _ => {
             eprintln!("seqmc: unknown property {prop}");
             2
